@@ -1,5 +1,5 @@
 #!/bin/bash
-# usage: seedrun.sh <ID> [outdir]   (development helper)
+# usage: seedrun.sh <ID> [outdir] [store-name]   (development helper)
 # Confirms a seeded change produced by an independent sub-agent and runs the
 # checks against it, all in the scratch worktree /var/tmp/wt-me (never /repo):
 #   1. patch applies to /repo's HEAD, builds, repository suite passes with it
@@ -8,6 +8,7 @@
 # On success the change is stored under /verif/seeded/<ID>/.
 ID=$1
 SRC=${2:-/tmp/seed-out/$ID}
+STORE=${3:-$ID}
 WT=/var/tmp/wt-me
 export GOFLAGS=-mod=mod GOPROXY=off GOSUMDB=off GOTOOLCHAIN=local
 set -u
@@ -46,21 +47,21 @@ done
 echo "caught by:${caught:- NONE}"
 git -C $WT checkout -q -- . ; git -C $WT clean -fdq
 if [ $rc_without -eq 0 ] && [ $rc_with -ne 0 ] && [ $rc_suite -eq 0 ]; then
-  mkdir -p /verif/seeded/$ID
-  cp "$SRC/patch.diff" /verif/seeded/$ID/patch.diff
-  [ -n "$demo" ] && cp "$demo" /verif/seeded/$ID/$(basename $demo)
-  python3 - "$ID" "$SRC" "$caught" <<'PY'
+  mkdir -p /verif/seeded/$STORE
+  cp "$SRC/patch.diff" /verif/seeded/$STORE/patch.diff
+  [ -n "$demo" ] && cp "$demo" /verif/seeded/$STORE/$(basename $demo)
+  python3 - "$ID" "$SRC" "$caught" "$STORE" <<'PY'
 import json,sys
-pid,src,caught=sys.argv[1:4]
+pid,src,caught,store=sys.argv[1:5]
 try: meta=json.load(open(src+'/meta.json'))
 except Exception: meta={}
 meta['property']=pid
 meta['confirmed_here']={"demo_passes_without_change":True,"demo_fails_with_change":True,"repository_suite_passes_with_change":True,
   "how":"seedrun.sh: patch applied in a scratch worktree at /repo's HEAD; demonstration run both ways; go test ./... with the change"}
 meta['caught_by_quick_checks']=caught.split()
-json.dump(meta,open('/verif/seeded/%s/meta.json'%pid,'w'),indent=1)
+json.dump(meta,open('/verif/seeded/%s/meta.json'%store,'w'),indent=1)
 PY
-  echo "CONFIRMED and stored in /verif/seeded/$ID"
+  echo "CONFIRMED and stored in /verif/seeded/$STORE"
 else
   echo "NOT CONFIRMED (without=$rc_without with=$rc_with suite=$rc_suite)"
 fi
